@@ -16,4 +16,13 @@ PROPS = {
         "assumptions": ["std::fmt `{:02}` formatting is modelled by `pad2`"],
         "explanation": "C19: all theorems of OH/Props/C19.lean (constructor range, mutually inverse minute conversions, order = minute order, add_minutes/add_hours = integer addition with none exactly outside 00:00..48:00, HH:MM display, clock conversion below 24:00) are proved for all inputs; the model is tied to the Rust type by exhaustive enumeration of the finite input domains.",
     },
+    "C20": {
+        "suites": ["c20"],
+        "trivial_tags": ["empty", "s-empty"],
+        "rule": "exhaustive: all pairs of sorted-unique vectors over 4 letters, all vectors of length <= 5 over 4 letters (from/contains/find_first_following with every probe 0..5), union on ALL pairs of arbitrary vectors (len <= 6 over 2 letters, <= 4 over 3 and 4 letters) passing through From<Vec>; plus 5k random groups (length <= 40, alphabets 2..50, touching/interleaved/nested operands, chains) and strings incl. multi-byte UTF-8 boundaries on both String and Arc<str>; thorough: vectors <= 6 over 5 letters, 200k random, all pairs <= 6 over 4 and 5 letters in-harness; a case is one distinct operation line, trivial = an empty operand",
+        "exhaustive": {"quick": True, "thorough": True},
+        "trusted_base": TB_COMMON + ["modelled, not verified: Rust's sort_unstable+dedup (insertion sort + adjacent dedup; equal for lawful Ord) and slice::binary_search (textbook midpoint search; `binarySearch_is_the_contract` proves the documented contract has a unique solution on sorted input, so any conforming implementation returns the same result)"],
+        "assumptions": ["element types have a lawful total order (Std.TransOrd, Std.LawfulEqOrd); instances exist for Nat, Char, String", "Rust's byte order on UTF-8 strings equals Lean's code-point order (confirmed by the correspondence on boundary code points)"],
+        "explanation": "C20: OH/Props/C20.lean proves, for every lawful ordered element type, that From<Vec> yields exactly the distinct elements strictly increasing, union of sorted operands is sorted and is exactly the set union (and, via uniqueness of sorted lists, commutative/associative/idempotent as list equalities), contains = membership, find_first_following = least element not below the argument, and that every value constructible through the API is sorted (Reachable).",
+    },
 }
